@@ -1,4 +1,5 @@
 use crate::error::Error;
+use crate::number::Number;
 use crate::vm::vcell::VCell;
 use crate::vm::Vm;
 
@@ -41,7 +42,13 @@ impl Vm {
         };
         match (left, right) {
             (VCell::Bool(left), VCell::Bool(right)) => Ok(left == right),
-            (VCell::Number(left), VCell::Number(right)) => Ok(left == right),
+            // exact and inexact numbers are never eqv?; flonums are eqv? when they are
+            // the same value (0.0 and -0.0 are not)
+            (VCell::Number(left), VCell::Number(right)) => Ok(match (left, right) {
+                (Number::Float(left), Number::Float(right)) => left.to_bits() == right.to_bits(),
+                (Number::Float(_), _) | (_, Number::Float(_)) => false,
+                _ => left == right,
+            }),
             (VCell::Nil, VCell::Nil) => Ok(true),
             (VCell::Pair(_, _), VCell::Pair(_, _)) => Ok(left == right),
             (VCell::Char(left), VCell::Char(right)) => Ok(left == right),
